@@ -633,6 +633,13 @@ class CallMixin:
             if args and isinstance(args[0], SV) and args[0].ty.kind == "str":
                 m = self.w.func("exc_msg", self.w.sort(T.EXC), self.w.StrSort)
                 self.side_fact(m(e.term) == args[0].term)
+            # payload: the positional constructor arguments stay attached to the exception value
+            for i_, a_ in enumerate(args):
+                if isinstance(a_, LazySeq):
+                    a_ = self.materialize(a_)
+                if isinstance(a_, SV) and a_.term is not None:
+                    pf = self.w.func(f"exc_arg{i_}<{a_.term.sort()}>", self.w.sort(T.EXC), a_.term.sort())
+                    self.side_fact(pf(e.term) == a_.term)
             return e
         ci = self.w.repo.find_class(name, cref.module)
         if ci is None:
@@ -799,6 +806,8 @@ class CallMixin:
         line = node.lineno
         c = self.specs.contract(fq)
         fi = self.w.repo.function(fq)
+        if self_val is not None and any(d.split(".")[-1] == "staticmethod" for d in fi.decorators):
+            self_val = None  # obj.static_method(...): no receiver is passed
         if c is not None and not c.inline:
             bound = self.bind_params(fi.node, args, kwargs, fi.module, self_val)
             return self.apply_contract(c, fi, bound, line)
@@ -1399,6 +1408,9 @@ class CallMixin:
         if fq in ("dataclasses.field",):
             return self.bi_field(node)
         spec = self.specs.module_fn(fq)
+        if spec is None and fq.split(".")[-1] in ("TimeoutError", "CancelledError") and fq.startswith("asyncio."):
+            # asyncio.TimeoutError is the builtin TimeoutError (python >= 3.11)
+            return self.construct(ClassRef(fq.split(".")[-1], None), args, kwargs, node)
         if spec is None:
             raise Unsupported(f"call of undeclared library function {fq} (line {line})")
         if "handler" in spec:
